@@ -297,9 +297,12 @@ func c01Gen(tier string, rng *rand.Rand) []c01Case {
 		// frame's length header, single bytes, everything coalesced (both directions)
 		if ci == 0 || ci == 4 || tier == "thorough" {
 			for seg := 1; seg <= 8; seg++ {
-				reps := 2
-				if seg == 7 {
-					reps = 1
+				reps := 1
+				if tier == "thorough" && seg != 7 {
+					reps = 2
+				}
+				if tier != "thorough" && ci != 0 && (seg < 2 || seg > 4) { // quick: the second configuration only gets the cuts 1..3 bytes into the header
+					continue
 				}
 				for r := 0; r < reps; r++ {
 					cs := c01Case{Cfg: cfg, Seg: seg}
@@ -613,10 +616,10 @@ func init() {
 		for i := 0; i < len(cases) && i < 3; i++ {
 			res.Samples = append(res.Samples, cases[(i*7919)%len(cases)])
 		}
-		// shards of at most 60 cases and about 150 KB of case text (large payloads evaluate slowly; the driver runs the shards in parallel)
+		// shards of at most 150 cases and about 220 KB of case text (large payloads evaluate slowly; the driver runs the shards in parallel)
 		for off, nsh := 0, 0; off < len(terms); nsh++ {
 			end, size := off, 0
-			for end < len(terms) && end-off < 60 && (end == off || size+len(terms[end]) <= 150000) {
+			for end < len(terms) && end-off < 150 && (end == off || size+len(terms[end]) <= 220000) {
 				size += len(terms[end])
 				end++
 			}
